@@ -182,11 +182,33 @@ class Engine:
     def decide(self, cond, payload=None):
         '''Branch on a z3 Bool.  payload: model-dependent data that must be identical when
         the decision is replayed (see _enumerate_int).'''
+        memo = self.path_local.get('decided')
+        if memo is not None:
+            r = memo.get(cond.get_id())
+            if r is not None:
+                return r
+        raw = cond
+        raw_id = cond.get_id()
         cond = z3.simplify(cond)
         if z3.is_true(cond):
             return True
         if z3.is_false(cond):
             return False
+        # the same condition decided again on the same path has the same value: no solver call
+        memo = self.path_local.setdefault('decided', {})
+        cid = cond.get_id()
+        if cid in memo:
+            return memo[cid]
+        r = self._decide(cond, payload)
+        memo[cid] = r
+        memo[raw_id] = r
+        neg = z3.simplify(z3.Not(cond))
+        memo[neg.get_id()] = not r
+        # AST ids are only unique among live terms: keep every memoised term alive for the path
+        self.path_local.setdefault('keepalive', []).extend((cond, raw, neg))
+        return r
+
+    def _decide(self, cond, payload):
         i = len(self.trace)
         if i >= self.max_decisions:
             raise Abort('budget', 'max_decisions')
@@ -607,6 +629,7 @@ def _enumerate_int(term, what):
         return known[kid]
     r = _enumerate_int2(eng, s, what)
     known[kid] = r
+    eng.path_local.setdefault('keepalive', []).append(s)
     return r
 
 
@@ -712,7 +735,14 @@ class SInt:
             return NotImplemented
         return SInt(z3.simplify(f(self.e, oe)))
 
-    def _cmp(self, o, f):
+    def _cmp(self, o, f, op=None):
+        if op is not None and type(o) is int:
+            cache = _ENGINE.path_local.setdefault('cmpcache', {})
+            key = (self.e.get_id(), op, o)
+            r = cache.get(key)
+            if r is None:
+                r = cache[key] = (_bool(f(self.e, z3.IntVal(o))), self.e)
+            return r[0]
         oe = self._o(o)
         if oe is None:
             return NotImplemented
@@ -766,10 +796,10 @@ class SInt:
         r = self._cmp(o, lambda a, b: a != b)
         return True if r is NotImplemented else r
 
-    def __lt__(self, o): return self._cmp(o, lambda a, b: a < b)
-    def __le__(self, o): return self._cmp(o, lambda a, b: a <= b)
-    def __gt__(self, o): return self._cmp(o, lambda a, b: a > b)
-    def __ge__(self, o): return self._cmp(o, lambda a, b: a >= b)
+    def __lt__(self, o): return self._cmp(o, lambda a, b: a < b, '<')
+    def __le__(self, o): return self._cmp(o, lambda a, b: a <= b, '<=')
+    def __gt__(self, o): return self._cmp(o, lambda a, b: a > b, '>')
+    def __ge__(self, o): return self._cmp(o, lambda a, b: a >= b, '>=')
 
     def __bool__(self):
         return bool(self != 0)
